@@ -16,6 +16,7 @@ mod rng;
 mod saveop;
 mod tree;
 mod xmlgen;
+mod xmlfuzz;
 
 use rng::Rng;
 use serde_json::Value as J;
@@ -46,6 +47,7 @@ impl Ctx {
     }
     pub fn emit(&mut self, mut case: J) {
         self.n += 1;
+        panicx::set_label(format!("op={} seed={} args={:?}: {} cases were completed before the call that hangs", self.op, self.seed, self.args, self.n));
         if let Some(o) = self.only {
             if o != self.n {
                 return;
@@ -82,6 +84,7 @@ impl Ctx {
 
 fn main() {
     panicx::install();
+    panicx::start_watchdog();
     let args: Vec<String> = std::env::args().collect();
     if args.len() < 2 {
         eprintln!("usage: kpharness <op> [--seed N] [--tier quick|thorough] [--count N] [--out FILE]");
@@ -140,6 +143,7 @@ fn main() {
         "legacy-wf" => legacy::run_wf(&mut ctx),
         "legacy-cred" => legacy::run_cred(&mut ctx),
         "legacy-fuzz" => legacy::run_fuzz(&mut ctx),
+        "xml-fuzz" => xmlfuzz::run(&mut ctx),
         "selftest" => ctx.emit(serde_json::json!({"op": "selftest", "real": {"vectors": []}})),
         _ => {
             eprintln!("unknown op {}", op);
